@@ -27,7 +27,7 @@ RULE = ("the C01 generator (1-8 stations of mixed EVSE classes and id styles, op
         "last_actual_charging_rate, get_prev_peak, infrastructure arrays), per-period charging rates, final energies, peak and final "
         "iteration are compared with the model replaying the returned schedules; monitors additionally check get_constraints, the "
         "per-station accessors, remaining_amp_periods, the deprecated active_evs accessor, held objects and caller-owned arguments; "
-        "Family sibling: an earlier experiment on a separately built network with the same station ids (EVSEs of the site types come from get_evse_by_type) is aborted by a scheduler fault with EVs plugged in, then the input runs on a freshly built network (which must be vacant). 15% of histories use a user-defined EVEvent subclass labelled 'Plugin' for half of the arrivals. Orthogonal options: 30% of histories also contain bare acnsim.Event / user-defined Event subclasses incl. one labelled 'Recompute' that must trigger the scheduler (own precedence, unknown event_type; also after the last departure); 20% build the Simulator around a still empty EventQueue that the caller fills afterwards through its own reference (sim.event_queue must be that object); family deepcopy (the freshly built simulator is duplicated with copy.deepcopy, the copy is run first, then the original); the resume family continues on the same object, on a deep copy, or on a to_json/from_json reload of the interrupted simulator. distinct = distinct (network, sessions, recomputes, max_recompute, period, scheduler kind/seed, family, id style); ambiguous = a "
+        "Family sibling: an earlier experiment on a separately built network with the same station ids (EVSEs of the site types come from get_evse_by_type) is aborted by a scheduler fault with EVs plugged in, then the input runs on a freshly built network (which must be vacant). 15% of histories use a user-defined EVEvent subclass labelled 'Plugin' for half of the arrivals. Orthogonal options: in 20% the scheduler object has already served another Simulator and is installed with update_scheduler(); 30% of histories also contain bare acnsim.Event / user-defined Event subclasses incl. one labelled 'Recompute' that must trigger the scheduler (own precedence, unknown event_type; also after the last departure); 20% build the Simulator around a still empty EventQueue that the caller fills afterwards through its own reference (sim.event_queue must be that object); family deepcopy (the freshly built simulator is duplicated with copy.deepcopy, the copy is run first, then the original); the resume family continues on the same object, on a deep copy, or on a to_json/from_json reload of the interrupted simulator. distinct = distinct (network, sessions, recomputes, max_recompute, period, scheduler kind/seed, family, id style); ambiguous = a "
         "remaining demand within 1e-7 of 1e-3 (still monitored)")
 ASSUMPTIONS = S_ASSUMPTIONS = [
     "schedulers are modelled as arbitrary functions view -> schedule; isolation of the real objects handed out by the Interface "
